@@ -75,6 +75,29 @@ example : figureName harmonicMinor 6 true "7" = "viio7".toList := by decide +ker
 
 def keys12 : List Int := [0, 1, 2, 3, 4, 5, 6, 7, 8, 9, 10, 11]
 
+/-! natural minor: the figures of a minor key that do not exist in harmonic minor — upper-case `III`
+and `VII` (subtonic) with all inversions and sevenths, and the minor dominant triad `v`.
+(`i7` / `v7` are read by the library with the harmonic-minor leading tone and are left out, see DESIGN.) -/
+
+def naturalMinor : List Int := [0, 2, 3, 5, 7, 8, 10]
+
+def naturalOK (key : Int) (deg : Nat) (sevenths : Bool) : Bool :=
+  (List.range 3).all (fun inv =>
+    reading (figureName naturalMinor deg false (triadFigs.getD inv "")) key .minor
+      == some (standard naturalMinor key deg 3 inv))
+  && (!sevenths || (List.range 4).all (fun inv =>
+    reading (figureName naturalMinor deg true (seventhFigs.getD inv "")) key .minor
+      == some (standard naturalMinor key deg 4 inv)))
+
+example : figureName naturalMinor 6 true "2" = "VII2".toList := by decide +kernel
+example : figureName naturalMinor 4 false "6" = "v6".toList := by decide +kernel
+
+/-- `III`, `VII` (triads and sevenths, all inversions) and `v` (triads) in the 12 minor keys read as the
+stacked thirds of NATURAL minor [kernel evaluation over the generated tables] -/
+theorem diatonic_natural_minor_12 : ∀ key ∈ keys12,
+    naturalOK key 2 true = true ∧ naturalOK key 6 true = true ∧ naturalOK key 4 false = true := by
+  decide +kernel
+
 /-- all 7 degrees x 7 figures x 12 keys in major [kernel evaluation over the finite table] -/
 theorem diatonic_major_12 : ∀ key ∈ keys12, ∀ deg ∈ List.range 7, diatonicOK .major key deg = true := by
   decide +kernel
